@@ -179,6 +179,8 @@ def signature(prop, clause, call, ret):
     extra = ""
     if ret is not None and ret.get("tiny"):
         extra = "+tinysteps"
+    if call.get("tinyspan"):
+        extra += "+tinyspan"
     return f"{prop}/{clause}/{call['method']}/{call['api']}/{call['problem']}/{tags}{extra}"
 
 
